@@ -20,6 +20,9 @@ def classify(inp, obs, tags):
 
 
 PROP = dict(
+    # thorough tier: 12 generated histories evaluated by the extracted OCaml model AND inside Coq (vm_compute on
+    # Vec/CvInst.x_trace_digest); the digests must be equal (cross-check of the extraction itself)
+    thorough_cmds=[["tools/cv_crosscheck.py", "--cases", "12"]],
     engines=[dict(
         name="compvec", classify=classify, extra=["--mode", "hist"],
         quick=dict(cases=480, shards=16, profiles=["debug"]),
